@@ -13,7 +13,7 @@ include!("store_common.rs");
 //@ mem: 16
 //@ covers: any
 //@ unwindset: put_bytes=80; heed::bytes_=260; heed::Table=6; memcmp.0=70; enc_tags=6
-//@ cbmc: --max-field-sensitivity-array-size 800
+//@ cbmc: --max-field-sensitivity-array-size 1100
 //@ encodes: Store::find_events (scrape branch and gate), Time arithmetic, Lmdb::ci_iter, Filter accessors
 //@ bounds: fresh (empty) store; a filter without ids, authors, kinds or tags whose since, until and limit are ARBITRARY (inverted and future windows included), an arbitrary clock, arbitrary scraping allowances: the query never panics; it is refused as scraping iff scraping is not allowed, limit exceeds the allowed limit and the window min(until, now) - since (0 when inverted) is not below the allowed seconds; otherwise it returns no events and no redaction
 //@ outside: non-empty stores and the index-served branches (key order and scan bounds are decided in c05_key_* / c05_iter_bounds_*)
